@@ -72,3 +72,11 @@ IDENTITY_RE = re.compile(r"(duplicated value|not found for Xsd|missing key field
 def is_identity_error(e):
     """Errors of document-wide identity constraints (key/keyref/unique, ID/IDREF)."""
     return bool(IDENTITY_RE.search(e.reason or ''))
+
+
+_ADDR = re.compile(r' at 0x[0-9a-fA-F]+')
+
+
+def clean_reason(reason):
+    """Reasons may embed repr() of objects with memory addresses; strip them before comparing."""
+    return _ADDR.sub('', reason or '')
